@@ -194,7 +194,24 @@ def _run_exact(case, ctx):
         return
     from pgverif.core import _h
     dg = _h([name, P, len(p)])
-    res = _call(pygaps.ModelIsotherm, pressure=list(p), loading=list(l), model=name, material="verif-c12", adsorbate=ads, temperature=T, **units)
+    extra = {}
+    tkw = {"temperature": T}
+    if case["seed"] % 2 == 0:
+        # the temperature as the instrument wrote it, in degrees Celsius
+        tkw = gen.temp_kw(T, celsius=True)
+        units = {k_: v_ for k_, v_ in units.items() if k_ != "temperature_unit"}
+        ctx.count("exact_variants", "temperature-in-celsius")
+    if case["seed"] % 3 == 0:
+        # user bounds that contain the generating parameters (a window around physically sensible values): the exact fit lies inside
+        from pygaps.modelling import get_isotherm_model
+        dflt = get_isotherm_model(name).param_bounds
+        ub = {}
+        for k_, v_ in P.items():
+            lo_, hi_ = (v_ * r.uniform(0.4, 0.8), v_ * r.uniform(1.25, 1.7)) if v_ > 0 else (v_ * r.uniform(1.25, 1.7), v_ * r.uniform(0.4, 0.8)) if v_ < 0 else (-1.0, 1.0)
+            ub[k_] = (max(lo_, dflt[k_][0]), min(hi_, dflt[k_][1]))
+        extra["param_bounds"] = ub
+        ctx.count("exact_variants", "user-bounds-around-the-generating-parameters")
+    res = _call(pygaps.ModelIsotherm, pressure=list(p), loading=list(l), model=name, material="verif-c12", adsorbate=ads, **tkw, **units, **extra)
     ctx.case(["exact", name, dg])
     if res[0] != "ok":
         if _is_calc(res[1]):
@@ -424,8 +441,17 @@ def _run_branch(case, ctx):
     kw = dict(material="verif-c12", adsorbate="nitrogen", temperature=77.355, **gen.DEFAULT_UNITS)
     piso = pygaps.PointIsotherm(pressure=list(P_all), loading=list(L_all), branch=marks, **kw)
     which = r.choice(["ads", "des"])
-    route = r.choice(["from_pointisotherm", "model_iso", "dataframe"])
-    if route == "from_pointisotherm":
+    route = r.choice(["from_pointisotherm", "model_iso", "dataframe"] + (["dataframe-unmarked"] * 2 if case["seed"] % 2 == 0 else []))
+    if route == "dataframe-unmarked":
+        # a recorded cycle without branch marks (adsorption up to the pressure maximum, then desorption), in a table whose row
+        # labels are whatever the user's slicing / filtering left
+        import pandas
+        n_all = len(P_all)
+        labels = r.choice([list(range(n_all)), list(range(6, 6 + n_all)), list(range(0, 2 * n_all, 2)), r.sample(range(100), n_all), ["r%d" % i for i in range(n_all)]])
+        df = pandas.DataFrame({"pressure": P_all, "loading": L_all}, index=labels)
+        ctx.count("branch", "unmarked-table/" + ("default-labels" if labels == list(range(n_all)) else "other-labels"))
+        res = _call(pygaps.ModelIsotherm, isotherm_data=df, pressure_key="pressure", loading_key="loading", branch=which, model=name, **kw)
+    elif route == "from_pointisotherm":
         res = _call(pygaps.ModelIsotherm.from_pointisotherm, piso, branch=which, model=name)
     elif route == "model_iso":
         from pygaps.modelling import model_iso
